@@ -2259,6 +2259,241 @@ pub(crate) mod persistence {
     }
 }
 
+/// Verification hook (feature `verif_hooks` only): build, mutate and decode stored query origins
+/// from plain data, so that a harness outside the crate can check that edges round-trip.
+#[cfg(feature = "verif_hooks")]
+pub mod verif_edges {
+    use super::{
+        OriginAndExtra, QueryEdge, QueryEdgeKind, QueryOriginRef, QueryRevisionsExtra,
+        QueryRevisionsExtraInner,
+    };
+    use crate::cycle::{CycleHeads, IterationStamp};
+    use crate::tracked_struct::Identity;
+    use crate::{DatabaseKeyIndex, Id, IngredientIndex};
+    use thin_vec::ThinVec;
+
+    /// One dependency edge, as plain numbers.
+    #[derive(Clone, Copy, Debug, PartialEq, Eq, Hash, PartialOrd, Ord)]
+    pub struct Edge {
+        pub output: bool,
+        /// `<= 0x7FFF_FFFF`
+        pub ingredient: u32,
+        /// `< u32::MAX`
+        pub index: u32,
+        pub generation: u32,
+    }
+
+    #[derive(Clone, Copy, Debug, PartialEq, Eq)]
+    pub enum Kind {
+        Derived,
+        DerivedUntracked,
+        /// the key of the assigning query is the first edge
+        Assigned,
+    }
+
+    /// Extra revision data, as plain numbers.
+    #[derive(Clone, Debug, Default, PartialEq, Eq)]
+    pub struct Extra {
+        /// (ingredient, identity hash, disambiguator, struct id as an edge-like key)
+        pub tracked_struct_ids: Vec<(u32, u64, u32, Edge)>,
+        /// (head key, iteration)
+        pub cycle_heads: Vec<(Edge, u8)>,
+        pub iteration: u8,
+        pub cycle_converged: bool,
+    }
+
+    #[derive(Clone, Debug, PartialEq, Eq)]
+    pub struct Decoded {
+        pub kind: Kind,
+        /// all edges in stored order (for `Assigned`: the assigning key as one input edge)
+        pub edges: Vec<Edge>,
+        pub inputs: Vec<Edge>,
+        pub outputs: Vec<Edge>,
+        pub packed: bool,
+        pub extra: Option<Extra>,
+    }
+
+    fn key(e: Edge) -> DatabaseKeyIndex {
+        // SAFETY: callers pass `index < u32::MAX` (documented on `Edge`).
+        let id = unsafe { Id::from_index(e.index) }.with_generation(e.generation);
+        DatabaseKeyIndex::new(IngredientIndex::new(e.ingredient), id)
+    }
+
+    fn plain(k: DatabaseKeyIndex, output: bool) -> Edge {
+        Edge {
+            output,
+            ingredient: k.ingredient_index().as_u32(),
+            index: k.key_index().index(),
+            generation: k.key_index().generation(),
+        }
+    }
+
+    fn stamp(iteration: u8) -> IterationStamp {
+        let mut s = IterationStamp::initial(0);
+        for _ in 0..iteration {
+            s = s.increment_iteration().expect("iteration <= MAX_ITERATIONS");
+        }
+        s
+    }
+
+    fn to_edge(e: Edge) -> QueryEdge {
+        if e.output {
+            QueryEdge::output(key(e))
+        } else {
+            QueryEdge::input(key(e))
+        }
+    }
+
+    fn from_edge(e: QueryEdge) -> Edge {
+        plain(e.key(), matches!(e.kind(), QueryEdgeKind::Output))
+    }
+
+    fn build_extra(extra: Option<&Extra>) -> QueryRevisionsExtra {
+        let Some(x) = extra else {
+            return QueryRevisionsExtra(None);
+        };
+        let tracked: ThinVec<(Identity, Id)> = x
+            .tracked_struct_ids
+            .iter()
+            .map(|&(ing, hash, dis, id)| {
+                (
+                    Identity::verif_new(IngredientIndex::new(ing), hash, dis),
+                    key(id).key_index(),
+                )
+            })
+            .collect();
+        let mut heads = CycleHeads::default();
+        for &(h, it) in &x.cycle_heads {
+            heads.insert(key(h), stamp(it));
+        }
+        let mut built = QueryRevisionsExtra::new(
+            #[cfg(feature = "accumulator")]
+            Default::default(),
+            tracked,
+            heads,
+            stamp(x.iteration),
+            true,
+        );
+        if let Some(inner) = built.0.as_mut() {
+            inner.cycle_converged = x.cycle_converged;
+        }
+        built
+    }
+
+    fn decode_extra(x: &QueryRevisionsExtraInner) -> Extra {
+        Extra {
+            tracked_struct_ids: x
+                .tracked_struct_ids
+                .iter()
+                .map(|(identity, id)| {
+                    let (ing, hash, dis) = identity.verif_parts();
+                    (
+                        ing.as_u32(),
+                        hash,
+                        dis,
+                        plain(DatabaseKeyIndex::new(ing, *id), false),
+                    )
+                })
+                .collect(),
+            cycle_heads: x
+                .cycle_heads
+                .iter()
+                .map(|h| (plain(h.database_key_index, false), h.iteration.load().iteration()))
+                .collect(),
+            iteration: x.iteration.load().iteration(),
+            cycle_converged: x.cycle_converged,
+        }
+    }
+
+    /// An owned stored origin (the real `OriginAndExtra`).
+    pub struct Origin(OriginAndExtra);
+
+    impl Origin {
+        pub fn build(kind: Kind, edges: &[Edge], extra: Option<&Extra>) -> Origin {
+            let x = build_extra(extra);
+            Origin(match kind {
+                Kind::Derived => OriginAndExtra::derived(edges.iter().copied().map(to_edge), x),
+                Kind::DerivedUntracked => {
+                    OriginAndExtra::derived_untracked(edges.iter().copied().map(to_edge), x)
+                }
+                Kind::Assigned => match x.0 {
+                    Some(inner) => OriginAndExtra::assigned_with_extra(key(edges[0]), inner),
+                    None => OriginAndExtra::assigned(key(edges[0])),
+                },
+            })
+        }
+
+        pub fn decode(&self) -> Decoded {
+            let origin = self.0.origin();
+            let (kind, edges, packed) = match origin {
+                QueryOriginRef::Assigned(k) => (Kind::Assigned, vec![plain(k, false)], false),
+                QueryOriginRef::Derived(e) => (
+                    Kind::Derived,
+                    e.iter().map(from_edge).collect(),
+                    matches!(e.data, super::QueryEdgesData::Packed(_)),
+                ),
+                QueryOriginRef::DerivedUntracked(e) => (
+                    Kind::DerivedUntracked,
+                    e.iter().map(from_edge).collect(),
+                    matches!(e.data, super::QueryEdgesData::Packed(_)),
+                ),
+            };
+            Decoded {
+                kind,
+                edges,
+                inputs: origin.inputs().map(|k| plain(k, false)).collect(),
+                outputs: origin.outputs().map(|k| plain(k, true)).collect(),
+                packed,
+                extra: self.0.extra().map(decode_extra),
+            }
+        }
+
+        pub fn is_derived_untracked(&self) -> bool {
+            self.0.is_derived_untracked()
+        }
+
+        #[cfg(not(feature = "persistence"))]
+        pub fn clear_edges(&mut self) {
+            self.0.clear_edges()
+        }
+
+        pub fn get_or_insert_extra(&mut self) {
+            self.0.get_or_insert_extra();
+        }
+
+    }
+
+    /// Serializes as `(origin, extra)` in the persisted representation.
+    #[cfg(feature = "persistence")]
+    impl serde::Serialize for Origin {
+        fn serialize<S: serde::Serializer>(&self, serializer: S) -> Result<S::Ok, S::Error> {
+            use super::persistence::PersistentQueryOrigin;
+            use serde::ser::SerializeTuple;
+            let p = match self.0.origin() {
+                QueryOriginRef::Assigned(k) => PersistentQueryOrigin::assigned(k),
+                QueryOriginRef::Derived(e) => PersistentQueryOrigin::derived(e.iter()),
+                QueryOriginRef::DerivedUntracked(e) => {
+                    PersistentQueryOrigin::derived_untracked(e.iter())
+                }
+            };
+            let mut t = serializer.serialize_tuple(2)?;
+            t.serialize_element(&p)?;
+            t.serialize_element(&self.0.extra())?;
+            t.end()
+        }
+    }
+
+    #[cfg(feature = "persistence")]
+    impl<'de> serde::Deserialize<'de> for Origin {
+        fn deserialize<D: serde::Deserializer<'de>>(deserializer: D) -> Result<Self, D::Error> {
+            use super::persistence::PersistentQueryOrigin;
+            let (p, x): (PersistentQueryOrigin, QueryRevisionsExtra) =
+                serde::Deserialize::deserialize(deserializer)?;
+            Ok(Origin(OriginAndExtra::new(p, x)))
+        }
+    }
+}
+
 #[cfg(test)]
 mod tests {
     use std::mem::size_of;
